@@ -49,6 +49,7 @@ func ReplayOnKernel(trace []Call, dir string, want map[string]string) error {
 		}
 		return EIO
 	}
+	consumed := map[int]bool{}
 	for i, c := range trace {
 		var got Errno
 		mism := func(format string, a ...any) error {
@@ -167,23 +168,54 @@ func ReplayOnKernel(trace []Call, dir string, want map[string]string) error {
 		case "linkat":
 			got = errnoOf(realunix.Linkat(mapDirfd(c.Args[0].(int)), fix(c.Args[1].(string)), mapDirfd(c.Args[2].(int)), fix(c.Args[3].(string)), 0))
 		case "getdents64":
+			// The kernel may split a listing over several calls differently from
+			// the simulation: compare the union of names of the group of
+			// consecutive getdents calls on this descriptor (up to EOF).
+			if consumed[i] {
+				continue
+			}
 			r, ok := fdmap[c.Args[0].(int)]
 			if !ok {
 				got = EBADF
 				break
 			}
-			buf := make([]byte, 8192)
-			n, e := realunix.ReadDirent(r, buf)
-			got = errnoOf(e)
-			if e == nil && c.Err == 0 {
-				_, _, names := realunix.ParseDirent(buf[:n], 1000, nil)
-				sort.Strings(names)
-				wantNames, _ := c.Ret[1].([]string)
-				w := append([]string(nil), wantNames...)
-				sort.Strings(w)
-				if (n > 0) != c.Ret[0].(bool) || strings.Join(names, "\x00") != strings.Join(w, "\x00") {
-					return mism("n=%d names=%v", n, names)
+			if c.Err != 0 {
+				break
+			}
+			var simNames []string
+			for j := i; j < len(trace); j++ {
+				t := trace[j]
+				if t.Name == "close" && t.Args[0].(int) == c.Args[0].(int) {
+					break
 				}
+				if t.Name != "getdents64" || t.Args[0].(int) != c.Args[0].(int) || t.Err != 0 {
+					continue
+				}
+				consumed[j] = true
+				ns, _ := t.Ret[1].([]string)
+				simNames = append(simNames, ns...)
+				if !t.Ret[0].(bool) {
+					break
+				}
+			}
+			var realNames []string
+			for {
+				buf := make([]byte, 8192)
+				n, e := realunix.ReadDirent(r, buf)
+				if e != nil {
+					got = errnoOf(e)
+					break
+				}
+				if n <= 0 {
+					break
+				}
+				_, _, names := realunix.ParseDirent(buf[:n], 1000, nil)
+				realNames = append(realNames, names...)
+			}
+			sort.Strings(realNames)
+			sort.Strings(simNames)
+			if strings.Join(realNames, "\x00") != strings.Join(simNames, "\x00") {
+				return mism("names=%v (sim %v)", realNames, simNames)
 			}
 		default:
 			return fmt.Errorf("call %d: replay of %s not supported", i, c.Name)
